@@ -489,7 +489,9 @@ func (vx *Vaxis) Render() {
 			log.Error("couldn't report winsize: %v", err)
 			return
 		}
-		if ws.Cols != vx.winSize.Cols || ws.Rows != vx.winSize.Rows {
+		// A change of the pixel size alone (eg of the font size) counts:
+		// images are sized by the pixels of a cell
+		if ws != vx.winSize {
 			vx.screenNext.resize(ws.Cols, ws.Rows)
 			vx.screenLast.resize(ws.Cols, ws.Rows)
 			vx.winSize = ws
